@@ -146,6 +146,18 @@ def _matches(f, what, replay):
     return True
 
 
+def tlc_verdict(ck, r, what, replay=None):
+    """fold a TLC run on the specification itself into the check: an invariant
+    violation is a violation; any other TLC failure is a machinery failure"""
+    if r.ok:
+        return True
+    if r.violation:
+        ck.violation('TLC: %s violated on the specification (%s): %s' % (r.violation, what, r.out[-1500:]),
+                     dict(replay or {}, kind='tlc', what=what, invariant=r.violation))
+        return False
+    machinery_failure('TLC failed on %s: %s\n%s' % (what, r.error, r.out[-3000:]))
+
+
 def machinery_failure(msg):
     sys.stderr.write('MACHINERY FAILURE: %s\n' % msg)
     sys.exit(2)
